@@ -125,7 +125,7 @@ private:
     int interp_;
     int decim_;
     int sublen_;
-    std::vector<uint16_t> xidxs_;
+    std::vector<int> xidxs_;
 };
 
 //------------------------------------------------------------------------------
